@@ -528,7 +528,10 @@ struct TemplateCore {
                                     }
 
                                     if (!skip) {
-                                        if (tag.TrueOffset < tag.FalseOffset) {
+                                        if (id > SizeT32{0xFF}) {
+                                            // The start IDs are 8 bits wide: with more sub-tags the tag stays text.
+                                            storage->Drop(SizeT{1});
+                                        } else if (tag.TrueOffset < tag.FalseOffset) {
                                             tag.FalseTagsStartID = SizeT8(id);
                                         } else {
                                             tag.TrueTagsStartID = SizeT8(id);
@@ -750,7 +753,8 @@ struct TemplateCore {
                         ++offset;
                     }
 
-                    if (offset < end_offset) {
+                    // The level of a loop is 8 bits wide: a loop nested deeper than that stays text.
+                    if ((offset < end_offset) && (parent_storage.Size() <= SizeT{0xFF})) {
                         LoopTag *tag = (storage->Insert(TagBit{})).MakeLoopTag();
                         tag->Offset  = loop_offset;
                         tag->Parent  = loop_tag;
